@@ -101,6 +101,10 @@ type Config struct {
 	// GenHistory: key indices for which the pos genesis carries a signing info and a missed-block
 	// array (the content of an exported state: validators and former validators with history)
 	GenHistory []int `json:"gen_history,omitempty"`
+	// GenSigning: signing state carried by the pos genesis for single validators, as a state export
+	// writes it: start height, ring offset, and the ring positions that hold a miss (a sparse list:
+	// positions that were signed have no entry)
+	GenSigning []GenSign `json:"gen_signing,omitempty"`
 	// FreshProc (C01 only): the history is additionally run on an instance in a fresh process
 	FreshProc bool `json:"fresh_proc,omitempty"`
 }
@@ -119,6 +123,14 @@ type PosParams struct {
 	SlashDowntimeNum int64         `json:"slash_downtime_num"`
 	SlashDoubleStr   string        `json:"slash_double_str,omitempty"` // overrides Num when set (decimal string)
 	SlashDowntimeStr string        `json:"slash_downtime_str,omitempty"`
+}
+
+// GenSign is the exported signing state of one validator.
+type GenSign struct {
+	Key    int     `json:"key"`
+	Start  int64   `json:"start"`
+	Offset int64   `json:"offset"`
+	Missed []int64 `json:"missed"`
 }
 
 type FeeMult struct {
@@ -337,6 +349,20 @@ func GenesisState(cfg Config) map[string]json.RawMessage {
 		}
 		pgs.SigningInfos[a.String()] = posTypes.ValidatorSigningInfo{Address: a, StartHeight: 0, IndexOffset: 1, JailedUntil: time.Unix(0, 0).UTC(), MissedBlocksCounter: 1}
 		pgs.MissedBlocks[a.String()] = []posTypes.MissedBlock{{Index: 0, Missed: true}}
+	}
+
+	for _, g := range cfg.GenSigning {
+		a := Addr(g.Key)
+		if pgs.SigningInfos == nil {
+			pgs.SigningInfos = map[string]posTypes.ValidatorSigningInfo{}
+			pgs.MissedBlocks = map[string][]posTypes.MissedBlock{}
+		}
+		pgs.SigningInfos[a.String()] = posTypes.ValidatorSigningInfo{Address: a, StartHeight: g.Start, IndexOffset: g.Offset, JailedUntil: time.Unix(0, 0).UTC(), MissedBlocksCounter: int64(len(g.Missed))}
+		var mb []posTypes.MissedBlock
+		for _, i := range g.Missed {
+			mb = append(mb, posTypes.MissedBlock{Index: i, Missed: true})
+		}
+		pgs.MissedBlocks[a.String()] = mb
 	}
 
 	// gov
